@@ -357,10 +357,16 @@ def suite_values(exe, tier, seed):
         for (name, body, claim) in value_cases():
             path = os.path.join(d, "v.circom")
             open(path, "w").write(VAL_TEMPLATE % body)
-            rc, out, err = run_cli(exe, [path], d)
+            rc, out, err = run_cli(exe, ["-v", path], d)
             evals += 1
             nontrivial += 1
-            made = set(re.findall(r"This condition is always (true|false)", out))
+            made = set()
+            for (code, ln, text) in coded_findings(out):
+                if code == "CS0009":
+                    pol = re.search(r"always (true|false)", text)
+                    made.add(pol.group(1) if pol else "unknown")
+            if claim is not None and "unknown" in made:
+                made.discard("unknown")   # a constant-condition finding whose polarity cannot be read is not judged when one is allowed
             if len(samples) < 6 and evals % 5 == 1:
                 samples.append({"case": name, "exit": rc, "claims": sorted(made)})
             what, props = None, ["C06"]
@@ -398,6 +404,26 @@ def documented_table(repo):
     return rows
 
 
+def coded_findings(out):
+    """[(code, primary line number or None, text of the finding block)] from verbose output (`-v` prints the report codes);
+    findings are identified by their code and source line, not by the wording of their messages"""
+    import re
+    res, cur = [], None
+    for l in out.split("\n"):
+        m = re.match(r"^(warning|error|note|info)\[(\w+)\]:", l)
+        if m:
+            cur = [m.group(2), None, l]
+            res.append(cur)
+        elif cur is not None:
+            cur[2] += "\n" + l
+            m2 = re.search(r"┌─ [^\s:]+:(\d+):\d+", l)
+            if m2 and cur[1] is None:
+                cur[1] = int(m2.group(1))
+            if l.startswith("circomspect:"):
+                cur = None
+    return [tuple(x) for x in res]
+
+
 def suite_curves(exe, tier, seed):
     import re
     repo = os.environ.get("VERIF_REPO", "/repo")
@@ -419,14 +445,16 @@ def suite_curves(exe, tier, seed):
         # ---- (a) the template / curve table
         src = "pragma circom 2.0.0;\n" + "".join(f"template {n}() {{ signal input a; signal output b; b <== a; }}\n" for n in allnames)
         src += "template Main() {\n  signal input x; signal output y[%d];\n" % len(allnames)
+        line_of = {}
         for i, n in enumerate(allnames):
+            line_of[src.count("\n") + 1] = n
             src += f"  component c{i} = {n}(); c{i}.a <== x; y[{i}] <== c{i}.b;\n"
         src += "}\ncomponent main = Main();\n"
         path = os.path.join(d, "table.circom")
         open(path, "w").write(src)
         for curve in CURVES:
-            rc, out, err = run_cli(exe, ["--curve", curve, path], d)
-            flagged = set(re.findall(r"The `(\w+)` template relies on BN254 specific parameters", out))
+            rc, out, err = run_cli(exe, ["-v", "--curve", curve, path], d)
+            flagged = {line_of.get(ln) for (code, ln, _) in coded_findings(out) if code == "CS0016"}
             for n in allnames:
                 evals += 1
                 nontrivial += 1
@@ -452,16 +480,8 @@ def suite_curves(exe, tier, seed):
             lines += ["}", "component main = Main(3);"]
             path = os.path.join(d, f"{tname}.circom")
             open(path, "w").write("\n".join(lines) + "\n")
-            rc, out, err = run_cli(exe, [path], d)   # default curve
-            flagged_lines = set()
-            ol = out.split("\n")
-            for k, l in enumerate(ol):
-                if f"Using `{tname}` to convert" in l:
-                    for l2 in ol[k + 1:k + 4]:
-                        m = re.search(r"\.circom:(\d+):\d+", l2)
-                        if m:
-                            flagged_lines.add(int(m.group(1)))
-                            break
+            rc, out, err = run_cli(exe, ["-v", path], d)   # default curve
+            flagged_lines = {ln for (code, ln, _) in coded_findings(out) if code == "CS0010"}
             for ln, n in where.items():
                 evals += 1
                 nontrivial += 1
@@ -480,10 +500,10 @@ def suite_curves(exe, tier, seed):
                         f"  component lt = LessThan(8);\n  lt.in[0] <== a;\n  lt.in[1] <== b;\n  ok <== lt.out;\n}}\ncomponent main = Main();\n")
                 path = os.path.join(d, "lt.circom")
                 open(path, "w").write(body)
-                rc, out, err = run_cli(exe, ["--curve", curve, path], d)
+                rc, out, err = run_cli(exe, ["-v", "--curve", curve, path], d)
                 evals += 1
                 nontrivial += 1
-                got = len(re.findall(r"needs to be constrained to ensure that it is <= p/2", out))
+                got = len([1 for (code, ln, _) in coded_findings(out) if code == "CS0014"])
                 want = 0 if k < bits - 1 else 2
                 if got != want or rc not in (0, 1) or "panicked" in err:
                     add(f"lessthan:{curve}:{k}", {"curve": curve, "k": k},
